@@ -27,6 +27,8 @@ DECIDED_R6 = ('Round 6: a translate table is evaluated (all five characters); an
 DECIDED = DECIDED + ' ' + DECIDED_R6
 DECIDED_R7 = ('Round 7: the path re-reading handler covers UnicodeEncodeError; premises C09.c / C09.d for the Content-Type and identity of the error document.')
 DECIDED = DECIDED + ' ' + DECIDED_R7
+DECIDED_R8 = ('Round 8: what json.dumps produced is returned as it is (whole-text re-encodings aside).')
+DECIDED = DECIDED + ' ' + DECIDED_R8
 NOT_DECIDED = 'pages rendered with debug on (excluded by the statement); custom error handlers; html.escape itself (assumed).'
 ASSUMPTIONS = ['html.escape and the five replacements of html_escape neutralise markup', 'json.dumps yields valid JSON']
 
@@ -405,6 +407,24 @@ def check(P, R):
     de = P.func(f'{OM}:Ombott.default_error_handler')
     gd = de.cfg
     jt = [n for n in gd.nodes if n.kind == 'test' and 'is_json_requested' in src(n.ast)]
+    if not jt:
+        # the choice between the JSON and the HTML rendering was taken out of default_error_handler: then every place that renders an error must make it
+        app_ = P.cls(f'{OM}:Ombott')
+        hit_ = False
+        for m_ in app_.methods.values():
+            mg_ = m_.cfg
+            for c_ in [x for x in walk_shallow(m_.node) if isinstance(x, ast.Call) and dotted(x.func) == 'self.default_error_handler']:
+                cn_ = mg_.node_of_stmt(c_)[0]
+                guarded_ = any(t_.kind == 'test' and t_.ast is not None and 'is_json_requested' in src(t_.ast) and
+                               (mg_.edge_dominates(t_, 'true', cn_) or mg_.edge_dominates(t_, 'false', cn_)) for t_ in mg_.nodes)
+                if not guarded_:
+                    hit_ = True
+                    R.ob('C20.e', m_, c_, False, text=f'`{short(c_)}` in {m_.name}: the renderer is chosen by what the client accepts', detail=
+                         f'default_error_handler no longer looks at request.is_json_requested, and `{short(c_)}` in {m_.name} calls it without that test: the error produced here '
+                         f'is answered with the HTML page also to a client that asked for JSON',
+                         why='when JSON is requested the error body is valid JSON', key_extra='renderer-choice')
+        if hit_:
+            return
     R.require(jt, 'default_error_handler: JSON test missing')
     dumps = [c for c in walk_shallow(de.node) if isinstance(c, ast.Call) and dotted(c.func) == 'json.dumps']
     jlab = 'false' if strip_not(jt[0].ast)[1] else 'true'      # the edge taken when JSON is requested
